@@ -120,6 +120,14 @@ def independence_clause(cl, rng, n, replay):
         objs["split windows among themselves"] = [(wins[0].ns.amplitude, wins[1].ns.amplitude)] if len(wins) > 1 else []
         tw = ts[2].split(0.05)
         objs["TimeSeries.split"] = [(w.amplitude, ts[2].amplitude) for w in tw]
+        # the boundary cases of a split: one window that is the whole record (window length = record length), and windows one sample shorter than that
+        whole = ts[2].split((ts[2].n_samples - 1) * 0.01)
+        objs["TimeSeries.split (one window covering the whole record)"] = [(w.amplitude, ts[2].amplitude) for w in whole]
+        if len(whole) != 1 or any(w is ts[2] for w in whole) or not np.array_equal(whole[0].amplitude, ts[2].amplitude):
+            cl.fail("hvsrpy.timeseries.TimeSeries.split", "a window as long as the record: not one new window holding the record's samples", signature="independence:split-whole")
+            return
+        whole_rec = rec.split((rec.ns.n_samples - 1) * 0.01)
+        objs["SeismicRecording3C.split (one window covering the whole record)"] = [(getattr(w, c).amplitude, getattr(rec, c).amplitude) for w in whole_rec for c in ("ns", "ew", "vt")]
         cl.case((j, N, shared_component))
         for what, pairs in objs.items():
             for a, b in pairs:
